@@ -304,7 +304,13 @@ Inductive xop :=
 | XReadFrom (off count srclen : N)     (* Bytes::read_volatile_from(off, &mut &src[..srclen], count) *)
 | XWriteTo (off count : N)             (* Bytes::write_volatile_to(off, &mut Vec, count) *)
 | XSliceCopyFrom (off len tsize k : N) (* get_slice(off,len)?.copy_from::<T>(&buf[..k]) *)
-| XSliceCopyTo (off len tsize k : N).  (* get_slice(off,len)?.copy_to::<T>(&mut buf[..k]) *)
+| XSliceCopyTo (off len tsize k : N)   (* get_slice(off,len)?.copy_to::<T>(&mut buf[..k]) *)
+(* the same stream entry points with a DESCRIPTOR (std::fs::File) as the other end: the transfer is a
+   read(2) / write(2) system call on the guarded pointer (io.rs:177-227) *)
+| XReadFromFd (off count flen : N)     (* Bytes::read_volatile_from(off, &mut File holding flen bytes, at position 0, count) *)
+| XReadExactFromFd (off count : N)     (* Bytes::read_exact_volatile_from(off, &mut File holding AT LEAST count bytes, count) *)
+| XWriteToFd (off count : N)           (* Bytes::write_volatile_to(off, &mut File that takes every write in full, count) *)
+| XWriteAllToFd (off count : N).       (* Bytes::write_all_volatile_to(off, &mut File that takes every write in full, count) *)
 
 (* what an operation asks of the guard machinery: Error (no guard: the call returns Err / nothing to
    do), or one guard (offset, len, write) plus the byte range it then touches through the guard *)
@@ -400,6 +406,32 @@ Definition op_plan (m : mode) (size : N) (op : xop) : outcome plan :=
                 let* gl := guard_len m (AArray t cnt) in                 (* VolatileArrayRef::copy_{to,from} :1198 / :1282 *)
                 Val (PGuard off gl wr off (N.min k cnt * t))
             end
+      end
+  | XReadFromFd off count flen =>
+      (* mod.rs:237-250; volatile_memory.rs:799-807 as for XReadFrom; the source is a File: io.rs:136-141 ->
+         read_volatile_raw_fd io.rs:177-201: `let guard = buf.ptr_guard_mut()` (:182) - the guard of that
+         subslice - lives until the function returns, i.e. across the ONE libc::read(fd, dst, buf.len()) (:189),
+         which stores min(buf.len(), bytes left in the file) bytes through the guarded pointer *)
+      if size <? off then Val PErr
+      else let gl := N.min (size - off) count in Val (PGuard off gl true off (N.min gl flen))
+  | XWriteToFd off count =>
+      (* mod.rs:267-280; volatile_memory.rs:816-824; io.rs:145-151 -> write_volatile_raw_fd io.rs:208-227:
+         `let guard = buf.ptr_guard()` (:213) held across ONE libc::write(fd, src, buf.len()) (:220); the sink
+         takes all of it *)
+      if size <? off then Val PErr
+      else let gl := N.min (size - off) count in Val (PGuard off gl false off gl)
+  | XReadExactFromFd off count | XWriteAllToFd off count =>
+      (* mod.rs:252-265 / :282-295; volatile_memory.rs:809-814 / :826-831: get_slice(addr, count)? (Err iff
+         addr + count overflows or exceeds the size), then the DEFAULT read_exact_volatile io.rs:56-78 /
+         write_all_volatile io.rs:102-124 of a File: partial_buf = buf.offset(0)?; while !partial_buf.is_empty()
+         { read_volatile_raw_fd / write_volatile_raw_fd(partial_buf) ... }.  An empty slice: no call, no guard.
+         Otherwise the first call - ONE guard over the whole slice - transfers all count bytes (the file holds at
+         least count bytes / the sink takes every write in full) and the loop ends *)
+      match end_offset size off count with
+      | None => Val PErr
+      | Some _ =>
+          if count =? 0 then Val PNone
+          else Val (PGuard off count (match op with XReadExactFromFd _ _ => true | _ => false end) off count)
       end
   end.
 
